@@ -249,6 +249,10 @@ fn parse_hunk_header(line: &str) -> Option<ParsedHunkHeader> {
                 ))
             })
             .collect::<Option<Vec<_>>>()?;
+        if line_numbers_and_hunk_lengths.is_empty() {
+            // Not a hunk header: users index the first and last coordinate.
+            return None;
+        }
         let code_fragment = caps[2].to_string();
         Some(ParsedHunkHeader {
             code_fragment,
